@@ -322,7 +322,7 @@ func pickMsg(r *rngT, dn string) message.Message {
 // C02: checksum gate — valid dialect frames, every single-bit flip, random damage.
 func genC02(r *rngT, n int, tier string) {
 	genX25(r, n)
-	for _, dn := range []string{"common", "user"} {
+	for _, dn := range []string{"common", "user", "userwide"} { // userwide: message ids beyond 16 bits (65836, 197164, 2^24-1)
 		defineDialect(dn)
 		for i := 0; i < n/4+1; i++ {
 			m := pickMsg(r, dn)
